@@ -130,7 +130,7 @@ impl Prop for C06 {
         vec!["Filter tag constraints always carry a name and names are distinct (a JSON object member per name).".into()]
     }
     fn cases(&self, tier: Tier) -> u32 {
-        tier.pick(60_000, 2_000_000)
+        tier.pick(800_000, 4_000_000)
     }
     fn strategy(&self, _tier: Tier) -> BoxedStrategy<Case> {
         (filter_strategy(), ev_strategy(), any::<bool>(), 0u8..20, any::<u16>())
